@@ -24,6 +24,6 @@ Lemma flop_law_lemma : forall lst, lst <> [] ->
     nth_error (flop lst) i = Some (map (fun x => wrap_at (as_list x) i) lst).
 Proof. intros lst H. split; [now apply flop_length|]. intros; now apply flop_row. Qed.
 
-Lemma cl_madd_is_multi_new : forall base bm ba self mul add st,
-  cl_madd base bm ba self mul add st = multi_new (muladd_new1 base bm ba) [Lst self; mul; add] st.
+Lemma cl_madd_is_multi_new : forall B self mul add st,
+  cl_madd B self mul add st = multi_new (muladd_new1 B) [Lst self; mul; add] st.
 Proof. reflexivity. Qed.
